@@ -1,0 +1,151 @@
+//! Verification hooks. Only compiled with `RUSTFLAGS="--cfg apollo_rs_verif"`;
+//! the shipped crate does not contain this module.
+//!
+//! * [`set_switch_hook`] / [`point`]: a process-global "scheduling point" callback.
+//!   While unset (the default) every point is a no-op,
+//!   so a verif build behaves like a normal build outside of a simulation.
+//! * [`AtomicU64`]: same API subset as `std::sync::atomic::AtomicU64`,
+//!   with a scheduling point in front of every access.
+//! * [`once_region`]: a scheduling point followed by a region in which points
+//!   on the current thread are suppressed, for code that runs under a real lock
+//!   (`OnceLock::get_or_init`): a simulated thread must never be descheduled
+//!   while it holds a real lock.
+
+use std::cell::Cell;
+use std::sync::atomic;
+use std::sync::atomic::AtomicUsize;
+use std::sync::atomic::Ordering;
+
+static HOOK: AtomicUsize = AtomicUsize::new(0);
+
+thread_local! {
+    static NO_YIELD_DEPTH: Cell<u32> = const { Cell::new(0) };
+}
+
+/// Install (or with `None`, remove) the process-global scheduling point callback
+pub fn set_switch_hook(hook: Option<fn(&'static str)>) {
+    let raw = match hook {
+        Some(f) => f as usize,
+        None => 0,
+    };
+    HOOK.store(raw, Ordering::SeqCst)
+}
+
+/// A scheduling point: calls the installed callback, if any,
+/// unless the current thread is inside a [`once_region`].
+#[inline]
+pub fn point(site: &'static str) {
+    let raw = HOOK.load(Ordering::SeqCst);
+    if raw == 0 {
+        return;
+    }
+    if NO_YIELD_DEPTH.with(|depth| depth.get()) > 0 {
+        return;
+    }
+    // SAFETY: non-zero values only come from `f as usize` in `set_switch_hook`
+    let hook: fn(&'static str) = unsafe { std::mem::transmute(raw) };
+    hook(site)
+}
+
+/// Guard returned by [`once_region`]
+pub struct NoYieldRegion(());
+
+/// A scheduling point named `site`, then suppress points on this thread until the guard is dropped
+pub fn once_region(site: &'static str) -> NoYieldRegion {
+    point(site);
+    NO_YIELD_DEPTH.with(|depth| depth.set(depth.get() + 1));
+    NoYieldRegion(())
+}
+
+impl Drop for NoYieldRegion {
+    fn drop(&mut self) {
+        NO_YIELD_DEPTH.with(|depth| depth.set(depth.get() - 1));
+    }
+}
+
+/// Stand-in for `std::sync::atomic::AtomicU64` with a scheduling point before every access
+pub struct AtomicU64(atomic::AtomicU64);
+
+impl AtomicU64 {
+    pub const fn new(value: u64) -> Self {
+        Self(atomic::AtomicU64::new(value))
+    }
+
+    /// The underlying atomic, accessed without scheduling points
+    pub fn raw(&self) -> &atomic::AtomicU64 {
+        &self.0
+    }
+
+    pub fn load(&self, order: Ordering) -> u64 {
+        point("atomic.load");
+        self.0.load(order)
+    }
+
+    pub fn store(&self, value: u64, order: Ordering) {
+        point("atomic.store");
+        self.0.store(value, order)
+    }
+
+    pub fn swap(&self, value: u64, order: Ordering) -> u64 {
+        point("atomic.swap");
+        self.0.swap(value, order)
+    }
+
+    pub fn fetch_add(&self, value: u64, order: Ordering) -> u64 {
+        point("atomic.fetch_add");
+        self.0.fetch_add(value, order)
+    }
+
+    pub fn fetch_sub(&self, value: u64, order: Ordering) -> u64 {
+        point("atomic.fetch_sub");
+        self.0.fetch_sub(value, order)
+    }
+
+    pub fn fetch_max(&self, value: u64, order: Ordering) -> u64 {
+        point("atomic.fetch_max");
+        self.0.fetch_max(value, order)
+    }
+
+    pub fn compare_exchange(
+        &self,
+        current: u64,
+        new: u64,
+        success: Ordering,
+        failure: Ordering,
+    ) -> Result<u64, u64> {
+        point("atomic.compare_exchange");
+        self.0.compare_exchange(current, new, success, failure)
+    }
+
+    pub fn compare_exchange_weak(
+        &self,
+        current: u64,
+        new: u64,
+        success: Ordering,
+        failure: Ordering,
+    ) -> Result<u64, u64> {
+        point("atomic.compare_exchange_weak");
+        self.0.compare_exchange_weak(current, new, success, failure)
+    }
+
+    /// Like the standard library: a load, then a compare-exchange loop.
+    /// Each iteration has its own scheduling points.
+    pub fn fetch_update<F>(
+        &self,
+        set_order: Ordering,
+        fetch_order: Ordering,
+        mut f: F,
+    ) -> Result<u64, u64>
+    where
+        F: FnMut(u64) -> Option<u64>,
+    {
+        let mut prev = self.load(fetch_order);
+        while let Some(next) = f(prev) {
+            match self.compare_exchange_weak(prev, next, set_order, fetch_order) {
+                x @ Ok(_) => return x,
+                Err(next_prev) => prev = next_prev,
+            }
+        }
+        Err(prev)
+    }
+}
